@@ -22,6 +22,7 @@ out.append(not xs)
 out.append(f"{a}-{b!r}-{len(xs):03d}")
 out.append((-a, +b, ~a, a ** 2, 7 // 2, 7 % 3, 1 << 3, 6 & 3, 6 | 1, 6 ^ 3, 7 / 2, 2 @ 1 if False else 0))
 out.append((a is None, a is not None, 2 in xs, 9 not in xs, a == b, a != b, a <= b, a >= b))
+out.append((1 < 5 < 3, 0 <= 2 < 3 <= 3, 5 > 1 < 2, [q for q in range(6) if 1 < q <= 4], 1 == 1 != 2 == 2))
 def scope():
     inner = 5
     loc = sorted(locals())
